@@ -130,15 +130,22 @@ Print Assumptions C09_state_is_live_state.
 (* Every launch rebuilds the state of the last SUCCESSFUL persist: after any history [ops], a restart or a stop +
    re-create [o], with a failing save or not, launches the new instance in the state the actor had at the last
    Storage.Save that returned nil in [ops ++ [o]] — the save attempted by [o] itself when it succeeds — and in the
-   empty state if no save ever succeeded. *)
+   empty state if no save ever succeeded. That is the state reported at the launch, the state the context holds
+   afterwards, and the state the stored record still rebuilds ([rebuilds]: snapshot ++ events). *)
 Theorem C09_recovers_last_successful_persist : forall (g : nat -> nat -> nat) (th : Z) (ops : list op) (o : op),
   is_relaunch o = true ->
   let c := fst (run repaired g th ops) in
   launch_state (snd (step repaired g c o)) = Some (last_persisted (ops ++ [o]))
   /\ actor (fst (step repaired g c o)) = last_persisted (ops ++ [o])
-  /\ stored_view (fst (step repaired g c o)) = stored_view (fst (run repaired g th (ops ++ [o]))).
+  /\ rebuilds (stored_view (fst (step repaired g c o))) = last_persisted (ops ++ [o]).
 Proof. exact recovers_last_successful_persist. Qed.
 Print Assumptions C09_recovers_last_successful_persist.
+
+(* At every moment of every history, what a Load would return rebuilds the state of the last successful persist. *)
+Theorem C09_stored_record_is_last_successful_persist : forall (g : nat -> nat -> nat) (th : Z) (ops : list op),
+  rebuilds (stored_view (fst (run repaired g th ops))) = last_persisted ops.
+Proof. exact stored_record_is_last_successful_persist. Qed.
+Print Assumptions C09_stored_record_is_last_successful_persist.
 
 (* A failing save changes nothing stored: after any history [ops], any further operations during which no save
    succeeds — events (threshold snapshots truncate the journal, later events are appended in place over its old
